@@ -31,6 +31,20 @@ pub fn data_dir() -> Option<String> {
     }
 }
 
+thread_local! {
+    static KEY_ORDERS: RefCell<Vec<Vec<String>>> = RefCell::new(Vec::new());
+}
+
+/// The order in which a snapshot iterated the keys it wrote (HashMap order), so that a
+/// harness can hand the same order to its model.
+pub fn record_key_order(order: Vec<String>) {
+    KEY_ORDERS.with(|o| o.borrow_mut().push(order));
+}
+
+pub fn take_key_orders() -> Vec<Vec<String>> {
+    KEY_ORDERS.with(|o| std::mem::take(&mut *o.borrow_mut()))
+}
+
 pub fn set_yield_hook(f: Option<Box<dyn Fn(&'static str) + Send + Sync>>) {
     *YIELD_HOOK.lock().unwrap() = f;
 }
